@@ -4,6 +4,7 @@ import (
 	"flag"
 	"fmt"
 	"os"
+	"path/filepath"
 )
 
 type engine struct {
@@ -16,6 +17,9 @@ var engines = map[string]func(args []string) error{}
 func register(name string, f func(args []string) error) { engines[name] = f }
 
 func main() {
+	if shimMain(filepath.Base(os.Args[0]), os.Args[1:]) {
+		return
+	}
 	if len(os.Args) < 2 {
 		fmt.Fprintln(os.Stderr, "usage: nxh <engine> [flags]")
 		os.Exit(2)
